@@ -492,6 +492,7 @@ func cmdParse(args []string) int {
 	st := parseStats{Kinds: map[string]int{}, SegKinds: map[string]int{}, LenHist: map[string]int{}, Corpus: ncorpus}
 	seen := map[string]bool{}
 	shiftRng := newRng(*seed + 77)
+	shrunk := 0
 	for i, q := range queries {
 		currentCase.Store(q)
 		caseStart.Store(time.Now().UnixNano())
@@ -503,7 +504,29 @@ func cmdParse(args []string) int {
 			shifts = []int{1, 2, 5}
 			st.ShiftChecks += 3
 		}
+		nBefore := len(violations)
 		parseOracles(q, r, shifts, addViol)
+		if len(violations) > nBefore && shrunk < 12 && *replay == "" {
+			// shrink the first failing input of this case (delta debugging on bytes, same oracle must still fail)
+			shrunk++
+			v0 := violations[nBefore]
+			fails := func(c string) bool {
+				hit := false
+				parseOracles(c, implParse(c), shifts, func(v violation) {
+					if v.Prop == v0.Prop && v.Name == v0.Name {
+						hit = true
+					}
+				})
+				return hit
+			}
+			if m := shrinkBytes(q, fails); m != q {
+				// the minimised input is reported as a failing input of its own (its replay runs it alone)
+				mv := v0
+				mv.Query = "x" + hex.EncodeToString([]byte(m))
+				mv.Detail = "minimised from " + v0.Query + ": " + strconv.Quote(m)
+				addViol(mv)
+			}
+		}
 		if r.ok && !strings.ContainsAny(q, "$&") && len(q) > 0 {
 			// C01 through the public API: a query without SQLair expressions is sent unchanged
 			st.PlainViaAPI++
@@ -567,6 +590,42 @@ func cmdParse(args []string) int {
 	os.WriteFile(*outDir+"/stats.json", sb, 0o644)
 	fmt.Printf("parse: %d cases, %d accepted (%d with expressions), %d rejected, %d oracle violations\n", st.Cases, st.Accepted, st.WithExpr, st.Rejected, len(violations))
 	return 0
+}
+
+// shrinkBytes: ddmin on the bytes of q for the predicate fails (at most a few hundred evaluations).
+func shrinkBytes(q string, fails func(string) bool) string {
+	cur := q
+	budget := 400
+	for n := 2; len(cur) > 1 && budget > 0; {
+		chunk := (len(cur) + n - 1) / n
+		reduced := false
+		for i := 0; i < len(cur) && budget > 0; i += chunk {
+			j := i + chunk
+			if j > len(cur) {
+				j = len(cur)
+			}
+			cand := cur[:i] + cur[j:]
+			budget--
+			if len(cand) > 0 && fails(cand) {
+				cur = cand
+				if n > 2 {
+					n--
+				}
+				reduced = true
+				break
+			}
+		}
+		if !reduced {
+			if chunk == 1 {
+				break
+			}
+			n *= 2
+			if n > len(cur) {
+				n = len(cur)
+			}
+		}
+	}
+	return cur
 }
 
 // wsVariant returns q with one run of white space changed (doubled, or a blank turned into a tab or
